@@ -739,7 +739,8 @@ class ImmediateSubprocessResult(AbstractSubprocessResult):
         self.stream.flush()
 
 
-_is_dots = re.compile(br'\.+(\r\n?|\n)').match  # Windows sneaks in a \r\n.
+# A keep-alive line consists of dots only.  (Windows sneaks in a \r\n.)
+_is_dots = re.compile(br'\.+(\r\n?|\n)').fullmatch
 
 
 class KeepaliveSubprocessResult(AbstractSubprocessResult):
